@@ -1425,6 +1425,24 @@ class Registry:
             t = self.spec_eval(ex, st, cl.fn, self.lambda_env(cl.fn, dict(st.env)), pre_heap=st.pre_heap, entry=entry_state)
             st.assume(ex.truth(st, t), f"inv:{cl.name}|{','.join(cl.serves)}")
 
+    def loop_frame_check(self, ex, pre, head, end, lc, ordinal, lineno):
+        """Soundness of the loop cut: a heap cell that existed at the loop head, was not havoced there (it is neither
+        syntactically mutated through its own name in the body nor listed in the loop's `modifies`) and is nevertheless
+        changed by the body -- typically through an alias -- would keep its entry value at every cut.  Such a body violates
+        the loop's frame; the obligation is false and is tagged with every property the loop's invariant serves."""
+        havoced = {loc for loc, c in head.heap.items() if pre.heap.get(loc) is not c}
+        changed = [loc for loc, c in head.heap.items() if loc not in havoced and loc in end.heap and end.heap[loc] is not c]
+        if not changed:
+            return
+        names = []
+        for loc in changed:
+            nm = [k for k, v in end.env.items() if isinstance(v, VRef) and v.loc == loc] or \
+                 [k for k, v in head.env.items() if isinstance(v, VRef) and v.loc == loc]
+            names.append(nm[0] if nm else f"cell#{loc}")
+        serves = sorted({p for cl in (lc.invariant if lc else []) for p in cl.serves}) or ["C01"]
+        ex.oblige(end, f"loop{ordinal}.frame[{','.join(sorted(set(names)))} modified in the body but neither named there nor listed in modifies]",
+                  z3.BoolVal(False), kind="frame", serves=serves, lineno=lineno, boundary=False, assume_after=False)
+
     def exec_while(self, ex, st, node: ast.While, lc, ordinal):
         if lc is None:
             raise EngineUnsupported(f"while loop at line {node.lineno} has no loop contract")
@@ -1449,6 +1467,7 @@ class Registry:
                     continue
                 for s3, oc in ex.exec_block(s2, node.body):
                     if oc.kind in (Outcome.NORMAL, Outcome.CONTINUE):
+                        self.loop_frame_check(ex, st, head, s3, lc, ordinal, node.lineno)
                         self.check_invariant(ex, s3, lc, ordinal, "preserved", entry, node.lineno)
                         if vpre is not None:
                             vpost = ex.as_int(self.spec_eval(ex, s3, lc.variant, self.lambda_env(lc.variant, dict(s3.env))))
@@ -1580,6 +1599,7 @@ class Registry:
         def after_body(s3, oc):
             if oc.kind in (Outcome.NORMAL, Outcome.CONTINUE):
                 s3.env["_i"] = VInt(i + 1)
+                self.loop_frame_check(ex, st, head, s3, lc, ordinal, node.lineno)
                 self.check_invariant(ex, s3, lc, ordinal, "preserved", entry, node.lineno)
                 return []
             if oc.kind == Outcome.BREAK:
